@@ -63,6 +63,9 @@ def build(clsname, topo, rname, wname, ctx, second_reader=None):
     reads = DICT_READS if k == "dict" else LIST_READS
     writes = DICT_WRITES if k == "dict" else LIST_WRITES
     ckey = "c" if k == "dict" else 1
+    missing = topo == "two-objects-missing-file"
+    if missing and (rname == "nav-read" or wname == "child-setitem" or rname in ("getitem", "eq") or wname in ("delitem", "reset")):
+        return None
     if topo == "same-object":
         objects = (0,)
         prefix = (("nav", 0, ckey),)
@@ -82,7 +85,9 @@ def build(clsname, topo, rname, wname, ctx, second_reader=None):
     if second_reader:
         threads.append(inst(reads[second_reader], rmap))
         names.append(second_reader)
-    cfg = seq.Config(clsname, initial=(INIT[k],), objects=objects, prefix=prefix, label=clsname)
+    if missing:
+        prefix = ()
+    cfg = seq.Config(clsname, initial=(env.ABSENT if missing else INIT[k],), objects=objects, prefix=prefix, label=clsname)
     return {"label": "%s/%s/%s/%s" % (clsname, topo, "ctx" if ctx else "noctx", "||".join(names)), "cfg": cfg,
             "ctx": ctx, "threads": threads, "pair": "r:%s||w:%s" % (rname, wname) + ("||r:" + second_reader if second_reader else ""),
             "topology": topo, "property": PROPERTY, "module": __name__, "final_views": False}
@@ -98,15 +103,19 @@ def plan(tier, seed):
             k = env.kind_of(c)
             rs = CORE_R[k] if tier == "quick" else tuple(DICT_READS if k == "dict" else LIST_READS)
             ws = CORE_W[k] if tier == "quick" else tuple(DICT_WRITES if k == "dict" else LIST_WRITES)
-            for topo in ("same-object", "two-objects"):
+            for topo in ("same-object", "two-objects", "two-objects-missing-file"):
                 for r in rs:
                     for w in ws:
-                        p1.append(build(c, topo, r, w, ctx))
+                        pr = build(c, topo, r, w, ctx)
+                        if pr is not None:
+                            p1.append(pr)
                 if tier != "quick" and fam in ("JSON", "Buffered") and ctx == fams[0][1] or (tier != "quick" and fam == "Buffered" and ctx):
                     for r in CORE_R[k][:3]:
                         for w in CORE_W[k][:2]:
                             p2.append(build(c, topo, r, w, ctx))
                             p1.append(build(c, topo, r, w, ctx, second_reader=CORE_R[k][3]))
+    p1 = [x for x in p1 if x is not None]
+    p2 = [x for x in p2 if x is not None]
     tasks = []
 
     def chunk(progs, n, **kw):
